@@ -1321,6 +1321,9 @@ pub mod vtunnel {
         pub body: Vec<u8>,
     }
 
+    /// more than any legitimate response of the endpoint (the largest is a 100 MiB download)
+    pub const BODY_CAP: usize = 130 * 1024 * 1024;
+
     #[derive(Debug, Clone, Default)]
     pub struct VResp {
         /// 0 = no response (stream reset / connection closed)
@@ -1425,6 +1428,10 @@ pub mod vtunnel {
                         while let Ok(Some(Ok(chunk))) = tokio::time::timeout(Duration::from_millis(50), body.data()).await {
                             let _ = body.flow_control().release_capacity(chunk.len());
                             out[i].body.extend_from_slice(&chunk);
+                            // a body that does not end must not exhaust the memory of the harness
+                            if out[i].body.len() > BODY_CAP {
+                                break;
+                            }
                         }
                     }
                     _ => {}
@@ -2101,6 +2108,57 @@ pub mod vicmp {
             }
             out
         }
+    }
+}
+
+// ---------------------------------------------------------------------------------------
+// Service channels as shutdown participants (C19): an idle client connection served by the real
+// ping / speedtest / reverse-proxy handler or the real metrics listener
+
+pub mod vservice {
+    use super::vtunnel::Transport;
+    use crate::core::Core;
+    use crate::http_codec::HttpCodec;
+    use crate::{http1_codec, http2_codec, http_ping_handler, http_speedtest_handler, log_utils, metrics, reverse_proxy};
+    use std::time::Duration;
+
+    pub struct Session {
+        /// the client's end of the connection; dropping it closes the connection
+        pub client: tokio::io::DuplexStream,
+        pub task: tokio::task::JoinHandle<()>,
+    }
+
+    /// `channel`: "ping" | "speedtest" | "reverse_proxy"; `h2`: HTTP/2 instead of HTTP/1.1 (the
+    /// reverse proxy serves HTTP/1.1 and HTTP/3 only). The client sends nothing.
+    pub fn spawn(core: &Core, channel: &str, h2: bool) -> Option<Session> {
+        let (client, server) = tokio::io::duplex(1 << 20);
+        let settings = core.verif_settings();
+        let codec: Box<dyn HttpCodec> = if h2 {
+            Box::new(http2_codec::Http2Codec::new(settings, Transport(server), log_utils::IdChain::empty()).ok()?)
+        } else {
+            Box::new(http1_codec::Http1Codec::new(settings, Transport(server), log_utils::IdChain::empty()))
+        };
+        let context = core.verif_context();
+        let timeout = Duration::from_secs(3600);
+        let id = log_utils::IdChain::empty();
+        let task = match channel {
+            "ping" => tokio::spawn(async move { http_ping_handler::listen(context.shutdown.clone(), codec, timeout, id).await }),
+            "speedtest" => tokio::spawn(async move { http_speedtest_handler::listen(context.shutdown.clone(), codec, timeout, id).await }),
+            "reverse_proxy" => {
+                context.settings.reverse_proxy.as_ref()?;
+                tokio::spawn(async move { reverse_proxy::listen(context, codec, "localhost".to_string(), id).await })
+            }
+            _ => return None,
+        };
+        Some(Session { client, task })
+    }
+
+    /// the metrics listener (it registers as a participant even when no address is configured)
+    pub fn spawn_metrics(core: &Core) -> tokio::task::JoinHandle<()> {
+        let context = core.verif_context();
+        tokio::spawn(async move {
+            let _ = metrics::listen(context, log_utils::IdChain::empty()).await;
+        })
     }
 }
 
